@@ -14,7 +14,7 @@ from ..model import call_many
 from ..pool import guarded, run_cases
 
 THEOREMS = ["C07_cst_untouched", "C07_nothing_replaced_is_identity", "C07_one_node_replaced", "C07_header_reprint_shape",
-            "C07_header_reprint_refuted", "C07_return_removed_shape", "C07_return_added", "C07_return_examples", "C07_find_cst_first_match", "C07_find_cst_none", "C07_checker_sound",
+            "C07_header_reprint_refuted", "C07_return_removed_shape", "C07_return_added", "C07_return_examples", "C07_doc_edit_outside", "C07_new_docstring_node_shape", "C07_doc_edit_examples", "C07_find_cst_first_match", "C07_find_cst_none", "C07_checker_sound",
             "C07_failure_atomic", "C07_order_nonvacuous"]
 FN_NAMES = ["compute", "render", "fetch", "cache", "route", "handler", "store", "merge"]
 CLS_NAMES = ["Alpha", "Beta", "Gamma"]
@@ -623,6 +623,38 @@ def header_cases(c):
         with contextlib.redirect_stderr(io.StringIO()):
             idx, found = find_cst_at_ast(cst, d)
         out.append({"find": True, "cst": enc, "lineno": d.lineno, "kind": kind, "name": d.name, "impl": idx if found is not None else None})
+    # the docstring edit on every def / class header of the module
+    import copy
+    from cdd.shared.ast_cst_utils import maybe_replace_doc_str_in_function_or_class
+    from cdd.shared.ast_utils import get_doc_str
+    defs_by_name = {}
+    for d in ast.walk(tree):
+        if isinstance(d, (ast.FunctionDef, ast.AsyncFunctionDef, ast.ClassDef)):
+            defs_by_name.setdefault(d.name, d)
+    for i, node in enumerate(cst):
+        if type(node).__name__ not in ("FunctionDefinitionStart", "ClassDefinitionStart") or getattr(node, "name", None) not in defs_by_name:
+            continue
+        d = copy.deepcopy(defs_by_name[node.name])
+        choice = (i + len(src)) % 3
+        if choice == 0:
+            if d.body and is_doc(d.body[0]):
+                d.body = d.body[1:] or [ast.Pass()]
+        elif choice == 1:
+            newdoc = ast.Expr(value=ast.Constant(value="\nNew summary line\n\n:param q: the q\n:type q: ```int```\n"))
+            d.body = ([newdoc] + d.body[1:]) if (d.body and is_doc(d.body[0])) else ([newdoc] + d.body)
+        lst = list(cst)
+        after = lst[i + 1] if i + 1 < len(lst) else None
+        try:
+            new_doc = get_doc_str(d) or ""
+            with contextlib.redirect_stdout(io.StringIO()):
+                maybe_replace_doc_str_in_function_or_class(d, i, lst)
+            got = [x.value for x in lst]
+        except Exception as e:  # noqa
+            continue
+        out.append({"docedit": True, "new_doc": new_doc, "idx": i, "nodes": [x.value for x in cst],
+                    "after_value": after.value if after is not None else "",
+                    "after_is_docstr": bool(after is not None and type(after).__name__ == "TripleQuoted" and getattr(after, "is_docstr", False)),
+                    "impl": got})
     for i, node in enumerate(cst):
         if type(node).__name__ not in ("FunctionDefinitionStart",):
             continue
@@ -687,6 +719,20 @@ def worker(batch):
         st, hs = guarded(header_cases, c, 30)
         if st == "ok":
             hdrs += [(c, h) for h in hs]
+        elif st == "raise":
+            out["items"].append(("C07/harness/header-cases-raise", {"detail": hs}, c))
+    des = [(c, h) for c, h in hdrs if h.get("docedit")]
+    hdrs = [(c, h) for c, h in hdrs if not h.get("docedit")]
+    if des:
+        eds = call_many("doc_edit", [[h["new_doc"], h["after_value"], h["after_is_docstr"]] for _c, h in des])
+        outs = call_many("apply_edit", [[e, h["idx"], h["nodes"]] for e, (_c, h) in zip(eds, des)])
+        for (c, h), e, m in zip(des, eds, outs):
+            out["headers"] += 1
+            if m != h["impl"]:
+                k = next((k for k, (a, b) in enumerate(zip(m, h["impl"])) if a != b), min(len(m), len(h["impl"])))
+                out["corr"].append({"stage": "maybe_replace_doc_str_in_function_or_class", "edit": e[0], "new_doc": h["new_doc"], "after_value": h["after_value"],
+                                    "impl_node": h["impl"][k] if k < len(h["impl"]) else None, "model_node": m[k] if k < len(m) else None,
+                                    "len_impl": len(h["impl"]), "len_model": len(m)})
     finds = [(c, h) for c, h in hdrs if h.get("find")]
     hdrs = [(c, h) for c, h in hdrs if not h.get("find")]
     if finds:
